@@ -78,6 +78,14 @@ def main():
     # 1. proofs
     audit = common.build_and_audit([m for m in mod.MODULES if os.path.exists(os.path.join(common.LEAN, m.replace('.', '/') + '.lean'))], mod.THEOREMS, need_driver=True)
     proof_failures = list(audit["failures"])
+    if args.tier == "thorough" and not proof_failures:
+        try:
+            rc, tail = common.leanchecker([m for m in mod.MODULES if os.path.exists(os.path.join(common.LEAN, m.replace('.', '/') + '.lean'))])
+            audit["leanchecker"] = "ok" if rc == 0 else tail
+            if rc != 0:
+                proof_failures.append({"kind": "leanchecker", "what": "leanchecker rejected the compiled modules", "detail": tail})
+        except Exception as e:
+            audit["leanchecker"] = f"not run: {e!r}"
     if any(f["kind"] == "build-module" and f["what"] == "driver" for f in proof_failures) or not os.path.exists(common.DRIVER):
         print("infrastructure error: Lean driver does not build", proof_failures)
         return 2
@@ -129,7 +137,7 @@ def main():
         "input_distribution": res.dist, "generated_constants": audit.get("gen", {}).get("constants"),
         "known_findings_reproduced": sorted(known_hit), "notes": res.notes,
         "source_fingerprint": common.source_fingerprint(getattr(mod, "ANCHORS", [])),
-        "lean_build_wall_s": audit.get("wall_s"),
+        "lean_build_wall_s": audit.get("wall_s"), "leanchecker": audit.get("leanchecker", "thorough tier only"),
     }
     rc = 0
     lines = []
